@@ -74,7 +74,13 @@ SPECS = {
                               proofs={r'left\s*=\s*match\s+left\s*\{': 'let ghost verif_l = left; let ghost verif_e = expr; let ghost verif_o = new_op;'},
                               proofs_after={r'left\s*=\s*match\s+left\s*\{':
                                             'proof { assert(/*C15.tree.muldiv*/ verif_o is Some && (verif_o->Some_0 == ArithmeticOp::Multiply || verif_o->Some_0 == ArithmeticOp::Divide || verif_o->Some_0 == ArithmeticOp::Modulo) && left == (if verif_l is Some { Some(spec_arith_node(verif_l->Some_0, verif_o->Some_0, verif_e->Some_0)) } else { verif_e })); }'}),
-    'parse_paren': parse_fn(),
+    'parse_paren': parse_fn(extra_ens=[
+        # C11 / C03: both bracket styles are accepted, each closed by its own kind
+        '/*C11.brackets*/ (lexem_at(*old(self), 0) is Some && lexem_at(*old(self), 0)->Some_0 is Open && r is Ok) ==> '
+        '(1 <= final(self).index <= final(self).lexems.len() && final(self).lexems[final(self).index - 1] is Close)',
+        '/*C11.brackets*/ (lexem_at(*old(self), 0) is Some && lexem_at(*old(self), 0)->Some_0 is CurlyOpen && r is Ok) ==> '
+        '(1 <= final(self).index <= final(self).lexems.len() && final(self).lexems[final(self).index - 1] is CurlyClose)',
+    ]),
     'parse_func_scalar': parse_fn(proofs={r'let\s+mut\s+lexem\s*=\s*self\.next_lexem\(\);': 'proof { broadcast use axiom_to_string_of_string; }'}, extra_ens=[
         # C02.quoted.literal: a quoted token is always text
         '/*C02.quoted.literal*/ (lexem_at(*old(self), 0) is Some && lexem_at(*old(self), 0)->Some_0 is String) ==> (r matches Ok(Some(e)) && '
